@@ -93,6 +93,36 @@ Theorem C13_validate_catches_up :
 Proof. exact validate_catches_up. Qed.
 Print Assumptions C13_validate_catches_up.
 
+(* The same when queries are interleaved with the changes before validate is called (an IDE keeps asking while
+   files change under it; the answers in between may be out of date): provided each modification is visible
+   in the indicators ([x_sound]: it never brings a watched resource's (mtime, size) to the stored value
+   unless nothing changed), project.validate() re-establishes coherence.  [Pending] is the invariant of the
+   phase; validate(f) works from any [Pending] state in which everything out of date lies below f. *)
+Theorem C13_validate_after_queries :
+  forall s ps, CacheCoherent s -> pend_sound s ps -> CacheCoherent (validate (foldl pend_step s ps)).
+Proof. exact validate_after_queries. Qed.
+Print Assumptions C13_validate_after_queries.
+
+Theorem C13_validate_pending :
+  forall f s, Pending s ->
+    (forall r i, watched s !! r = Some (Some i) -> stampw s r <> Some i -> inside f r = true) ->
+    CacheCoherent (validate_in f s).
+Proof. exact validate_pending. Qed.
+Print Assumptions C13_validate_pending.
+
+(* non-vacuity, and the history of seeded mutation C13-6 inside the model: a watched module is deleted
+   (indicator None), re-created and asked for before validate (cached again, indicator taken), edited again;
+   the state before validate is not coherent, the one after it is, and the module answers its last text *)
+Example C13_example_pending :
+  Coherent wit4 /\ watched wit4 !! [1%N] = Some None /\ pend_sound wit4 wit4_ps
+  /\ is_Some (mods (foldl pend_step wit4 wit4_ps) !! [1%N])
+  /\ ~ CacheCoherent (foldl pend_step wit4 wit4_ps)
+  /\ Coherent (validate (foldl pend_step wit4 wit4_ps))
+  /\ (run_query (validate (foldl pend_step wit4 wit4_ps)) (QLoad [1%N])).2
+     = ALoad (Some (Some (Content 4 true [] 12))).
+Proof. exact pending_example. Qed.
+Print Assumptions C13_example_pending.
+
 (* [ind_sound] cannot be dropped: a rewrite that keeps both components is invisible (rope's design) ... *)
 Theorem C13_validate_needs_indicator_sound_refuted :
   exists s xs, Coherent s /\ forallb (xunder []) xs = true /\ ~ ind_sound s (foldl xstep s xs)
